@@ -23,13 +23,13 @@ Theorem derivation_constants_are_the_standards :
   slip10_hmac_key_ed25519 = curve_ed25519_seed /\
   secp256k1_order = sec2_secp256k1_n /\ nist256p1_order = sec2_secp256r1_n /\
   bip32_hardened_bit = 31 /\ bip32_index_max = 2 ^ 32 - 1 /\ slip10_seed_min_len = 16%nat /\
-  slip10_priv_prefix = [0] /\ bip32_fprint_master = master_fingerprint /\ bip32_fprint_len = 4%nat /\
+  slip10_priv_prefix = [0] /\ slip10_retry_prefix = [1] /\ bip32_fprint_master = master_fingerprint /\ bip32_fprint_len = 4%nat /\
   hmac512_half_len = 32%nat /\ ecdsa_priv_len = 32%nat /\ ed25519_priv_len = 32%nat /\ ed25519_pub_prefix = [0].
 Proof.
   exact (conj hmac_key_secp256k1_ok (conj hmac_key_nist256p1_ok (conj hmac_key_ed25519_ok
         (conj secp256k1_order_ok (conj nist256p1_order_ok (conj hardened_bit_31 (conj index_max_val
-        (conj seed_min_16 (conj priv_prefix_0 (conj fprint_master_zero (conj fprint_len_4
-        (conj half_len_32 (conj ecdsa_priv_len_32 (conj ed25519_priv_len_32 ed25519_pub_prefix_0)))))))))))))).
+        (conj seed_min_16 (conj priv_prefix_0 (conj retry_prefix_1 (conj fprint_master_zero (conj fprint_len_4
+        (conj half_len_32 (conj ecdsa_priv_len_32 (conj ed25519_priv_len_32 ed25519_pub_prefix_0))))))))))))))).
 Qed.
 Print Assumptions derivation_constants_are_the_standards.
 
